@@ -71,6 +71,8 @@ func c20Reference(g c20Graph) [][]int64 {
 			switch {
 			case i == j:
 				d[i][j] = 0
+			case g.Arcs[i*n+j] == 5:
+				d[i][j] = c20Inf // an own link lost longer ago than the purge time: forgotten by the purge task
 			case g.Arcs[i*n+j] == 1 || g.Arcs[i*n+j] == 4:
 				d[i][j] = 0 // 4: an own link that was lost 20 s ago and came back 5 s ago - live again
 			case g.Arcs[i*n+j] >= 2:
@@ -111,7 +113,7 @@ func c20RunGraph(n *nhNode, g c20Graph) (key, desc string, entries int) {
 	}()
 	vtime.SetVirtual(VNow)
 	d := routing.VerifNewDTLSR(n.core, routing.DTLSRConfig{RecomputeTime: "30s", BroadcastTime: "30s", PurgeTime: "10m"})
-	T := VNow.Add(60 * time.Second)
+	T := VNow.Add(720 * time.Second) // late enough for a loss 11 minutes before T to lie after the start
 	ago := func(ms int64) time.Time { return T.Add(-time.Duration(ms) * time.Millisecond) }
 	// own links: appear at the start, disappear at their loss instants (in chronological order)
 	for j := 1; j < g.N; j++ {
@@ -127,6 +129,8 @@ func c20RunGraph(n *nhNode, g c20Graph) (key, desc string, entries int) {
 	for j := 1; j < g.N; j++ {
 		if g.Arcs[j] == 4 {
 			ol = append(ol, ownLoss{j, 20000})
+		} else if g.Arcs[j] == 5 {
+			ol = append(ol, ownLoss{j, 11 * 60 * 1000})
 		} else if g.Arcs[j] >= 2 {
 			ol = append(ol, ownLoss{j, g.lossAgo(0, j)})
 		}
@@ -173,6 +177,9 @@ func c20RunGraph(n *nhNode, g c20Graph) (key, desc string, entries int) {
 		}
 		d.VerifLinkState(c20LinkStateBundle(i, issued, peers, uint64(i)))
 	}
+	// the purge task runs before the recomputation: it forgets own links lost longer ago than the purge time (10 min)
+	// and nothing else
+	d.VerifPurge()
 	d.VerifRecompute()
 	table := d.VerifTable()
 	ref := c20Reference(g)
@@ -198,11 +205,11 @@ func c20RunGraph(n *nhNode, g c20Graph) (key, desc string, entries int) {
 				k = x
 			}
 		}
-		if k < 0 || g.Arcs[k] == 0 {
+		if k < 0 || g.Arcs[k] == 0 || g.Arcs[k] == 5 {
 			return "next-hop-not-a-neighbour", fmt.Sprintf("graph %v: next hop for n%d is %v", g.Arcs, j, nh), entries
 		}
 		first := int64(0)
-		if g.Arcs[k] >= 2 && g.Arcs[k] != 4 {
+		if g.Arcs[k] >= 2 && g.Arcs[k] < 4 {
 			first = g.lossAgo(0, k)
 		}
 		if first+ref[k][j] != ref[0][j] {
@@ -364,9 +371,9 @@ func c20AllGraphs(n int, states []int, maxLost int) []c20Graph {
 // combined with every state of the other own link and of the two second-hop links.
 func c20Returning() []c20Graph {
 	var out []c20Graph
-	for _, a := range []int{4, 1, 2, 3} {
-		for _, b := range []int{4, 1, 2, 3} {
-			if a != 4 && b != 4 {
+	for _, a := range []int{4, 5, 1, 2, 3} {
+		for _, b := range []int{4, 5, 1, 2, 3} {
+			if a < 4 && b < 4 {
 				continue
 			}
 			for _, c := range []int{0, 1, 2, 3} {
